@@ -9,7 +9,14 @@ int g_lock, g_once_lock;
 void orc_global_mutex_lock (void) { __CPROVER_assert(g_lock == 0, "global mutex not already held (non-recursive)"); g_lock = 1; }
 void orc_global_mutex_unlock (void) { __CPROVER_assert(g_lock == 1, "unlock of a held global mutex"); g_lock = 0; }
 void orc_once_mutex_lock (void) { __CPROVER_assert(g_once_lock == 0, "once mutex not already held (non-recursive)"); g_once_lock = 1; }
-void orc_once_mutex_unlock (void) { __CPROVER_assert(g_once_lock == 1, "unlock of a held once mutex"); g_once_lock = 0; }
+OrcOnce *g_leaving_once;   /* ghost: the object orc_once_leave is publishing (NULL outside leave) */
+void orc_once_mutex_unlock (void) {
+  __CPROVER_assert(g_once_lock == 1, "unlock of a held once mutex");
+  /* the initialised flag is published BEFORE the lock is released: otherwise a second thread can take the lock, still see
+   * inited == 0 and initialise again (this is the sequentially visible half of the protocol) */
+  __CPROVER_assert(g_leaving_once == NULL || g_leaving_once->inited != 0, "once mutex released only after the initialised flag is published");
+  g_once_lock = 0;
+}
 
 /* every registry initialiser runs inside the global lock */
 int g_inits;
@@ -40,7 +47,7 @@ __CPROVER_requires(__CPROVER_rw_ok(once, sizeof(*once)) && g_once_lock == 1)
 __CPROVER_assigns(once->value, once->inited, g_once_lock)
 __CPROVER_ensures(g_once_lock == 0 && once->inited == 1 && once->value == value);
 void h_once_enter(void) { OrcOnce *o = malloc(sizeof(*o)); __CPROVER_assume(o != NULL); void *v; g_once_lock = nondet_int(); orc_once_enter(o, &v); REACH(); }
-void h_once_leave(void) { OrcOnce *o = malloc(sizeof(*o)); __CPROVER_assume(o != NULL); g_once_lock = nondet_int(); orc_once_leave(o, nondet_ptr()); REACH(); }
+void h_once_leave(void) { OrcOnce *o = malloc(sizeof(*o)); __CPROVER_assume(o != NULL); o->inited = 0; g_once_lock = nondet_int(); g_leaving_once = o; orc_once_leave(o, nondet_ptr()); REACH(); }
 /* exactly-once under the contracts: a second caller after leave sees the value and does not initialise again */
 void lemma_once(void) {
   OrcOnce *o = malloc(sizeof(*o)); __CPROVER_assume(o != NULL); o->inited = 0; o->value = NULL; g_once_lock = 0;
